@@ -29,6 +29,13 @@ def run_call(spec):
     from sqlglot import exp
 
     kind = spec[1]
+    if kind == "preload":
+        # load every registered dialect (warm process): returns nothing worth comparing
+        from sqlglot.dialects.dialect import Dialect
+
+        for name in spec[2]:
+            Dialect.get_or_raise(name)
+        return "loaded"
     if kind == "tokenize":
         return repr([(t.token_type.name, t.text, t.start, t.end) for t in sqlglot.tokenize(spec[2], read=spec[3] or None)])
     if kind == "transpile":
